@@ -117,17 +117,21 @@ func (h Held) String() string {
 
 // LockState is the result of the lock-hold dataflow of one function.
 type LockState struct {
-	p   *Prog
-	fn  *ssa.Function
-	in  map[*ssa.BasicBlock]Held
-	ops map[ssa.Instruction]LockOp
+	p     *Prog
+	fn    *ssa.Function
+	in    map[*ssa.BasicBlock]Held
+	ops   map[ssa.Instruction]LockOp
+	sub   map[*ssa.Function]*LockState // lock states of transparent helpers, seeded with what is held at their call sites
+	depth int
 }
 
 // Locks computes, by a forward must-dataflow, the locks held at each point of fn.
 // `defer mu.Unlock()` keeps the lock held until function exit. The entry state can be seeded
 // (locks the caller is known to hold).
-func (p *Prog) Locks(fn *ssa.Function, entry Held) *LockState {
-	ls := &LockState{p: p, fn: fn, in: map[*ssa.BasicBlock]Held{}, ops: map[ssa.Instruction]LockOp{}}
+func (p *Prog) Locks(fn *ssa.Function, entry Held) *LockState { return p.locksDepth(fn, entry, 0) }
+
+func (p *Prog) locksDepth(fn *ssa.Function, entry Held, depth int) *LockState {
+	ls := &LockState{p: p, fn: fn, in: map[*ssa.BasicBlock]Held{}, ops: map[ssa.Instruction]LockOp{}, depth: depth}
 	if fn == nil || len(fn.Blocks) == 0 {
 		return ls
 	}
@@ -207,7 +211,21 @@ func sameHeld(a, b Held) bool {
 
 func (ls *LockState) apply(cur Held, in ssa.Instruction) {
 	op, ok := ls.ops[in]
-	if !ok || op.Deferred {
+	if !ok {
+		// a transparent helper may take or release locks: its effect is the lock set held at all its returns
+		if g := TransparentCallee(in); g != nil && ls.depth < maxInlineDepth && g != ls.fn {
+			if eff, ok := ls.p.helperLockEffect(g, in.(*ssa.Call), cur, ls.depth+1); ok {
+				for k := range cur {
+					delete(cur, k)
+				}
+				for k, v := range eff {
+					cur[k] = v
+				}
+			}
+		}
+		return
+	}
+	if op.Deferred {
 		return
 	}
 	if op.Acquire {
@@ -217,8 +235,14 @@ func (ls *LockState) apply(cur Held, in ssa.Instruction) {
 	}
 }
 
-// At returns the locks definitely held immediately before instruction in executes.
+// At returns the locks definitely held immediately before instruction in executes.  For an instruction inside a
+// transparent helper of the function the state is that of the helper, entered with what is held at its call sites.
 func (ls *LockState) At(in ssa.Instruction) Held {
+	if g := in.Parent(); g != nil && g != ls.fn && ls.fn != nil {
+		if sub := ls.subState(g); sub != nil {
+			return sub.At(in)
+		}
+	}
 	b := in.Block()
 	cur := ls.in[b].clone()
 	if cur == nil {
@@ -257,7 +281,7 @@ func (ls *LockState) SameHold(a, b ssa.Instruction, field string, write bool) (b
 		return false, "lock not held at " + ls.p.InstrPos(b)
 	}
 	rel := func(in ssa.Instruction) bool {
-		op, ok := ls.ops[in]
+		op, ok := ls.p.lockOpOf(in) // also inside transparent helpers
 		return ok && !op.Deferred && !op.Acquire && op.Field == field
 	}
 	// is there a path a -> release -> b ?
@@ -336,3 +360,130 @@ func (p *Prog) HeldAtAllCallers(fn *ssa.Function, field string, write bool, dept
 	}
 	return true, "", n
 }
+
+// subState computes the lock state of the transparent helper g as entered from ls.fn (intersection over call chains).
+func (ls *LockState) subState(g *ssa.Function) *LockState {
+	if ls.sub == nil {
+		ls.sub = map[*ssa.Function]*LockState{}
+	}
+	if st, ok := ls.sub[g]; ok {
+		return st
+	}
+	ls.sub[g] = nil // recursion guard
+	chains := transparentChains(ls.fn, g)
+	if len(chains) == 0 {
+		return nil
+	}
+	var entry Held
+	for i, ch := range chains {
+		call := ch[len(ch)-1]
+		h := translateHeld(ls.p, ls.At(call), call, g)
+		if i == 0 {
+			entry = h
+		} else {
+			for k, w := range entry {
+				ow, ok := h[k]
+				if !ok {
+					delete(entry, k)
+				} else if w && !ow {
+					entry[k] = false
+				}
+			}
+		}
+	}
+	st := ls.p.locksDepth(g, entry, ls.depth+1)
+	ls.sub[g] = st
+	return st
+}
+
+// translateHeld renames the lock bases of a caller's held set into the callee's parameter names where an argument
+// denotes the same object (method receivers first of all); other keys are kept.
+func translateHeld(p *Prog, h Held, call *ssa.Call, g *ssa.Function) Held {
+	out := Held{}
+	args := call.Common().Args
+	for k, w := range h {
+		i := strings.Index(k, "|")
+		base, field := k[:i], k[i:]
+		nb := base
+		for ai, a := range args {
+			if ai < len(g.Params) && p.Desc(a) == base {
+				nb = g.Params[ai].Name()
+				break
+			}
+		}
+		// closures see the caller's variables under their own names
+		out[nb+field] = w
+	}
+	return out
+}
+
+// helperLockEffect: the lock set after a call to the transparent helper g entered with `cur`: what is held at every
+// normal return of g, renamed back into the caller's names.
+func (p *Prog) helperLockEffect(g *ssa.Function, call *ssa.Call, cur Held, depth int) (Held, bool) {
+	touches := false
+	for _, b := range g.Blocks {
+		for _, in := range b.Instrs {
+			if _, ok := p.lockOpOf(in); ok {
+				touches = true
+			}
+			if TransparentCallee(in) != nil {
+				touches = true
+			}
+		}
+	}
+	if !touches {
+		return nil, false
+	}
+	entry := translateHeld(p, cur, call, g)
+	st := p.locksDepth(g, entry, depth)
+	var out Held
+	first := true
+	for _, b := range g.Blocks {
+		if len(b.Instrs) == 0 || b == g.Recover {
+			continue
+		}
+		r, ok := b.Instrs[len(b.Instrs)-1].(*ssa.Return)
+		if !ok {
+			continue
+		}
+		h := st.At(r)
+		// deferred unlocks of g run before it returns
+		for _, op := range st.ops {
+			if op.Deferred && !op.Acquire {
+				delete(h, op.Key())
+			}
+		}
+		if first {
+			out, first = h, false
+			continue
+		}
+		for k, w := range out {
+			ow, ok := h[k]
+			if !ok {
+				delete(out, k)
+			} else if w && !ow {
+				out[k] = false
+			}
+		}
+	}
+	if first {
+		return nil, false
+	}
+	// rename back
+	back := Held{}
+	args := call.Common().Args
+	for k, w := range out {
+		i := strings.Index(k, "|")
+		base, field := k[:i], k[i:]
+		nb := base
+		for ai, a := range args {
+			if ai < len(g.Params) && g.Params[ai].Name() == base {
+				nb = p.Desc(a)
+				break
+			}
+		}
+		back[nb+field] = w
+	}
+	return back, true
+}
+
